@@ -136,6 +136,8 @@ pub fn create_raw_dict_from_source<R: io::Read, W: io::Write>(
         source
             .read_to_end(&mut buf)
             .expect("Could not read from source");
+        // The dictionary is never bigger than requested
+        buf.truncate(dict_size);
         output.write_all(&buf).expect("Could not write to output");
         return;
     }
@@ -194,10 +196,20 @@ pub fn create_raw_dict_from_source<R: io::Read, W: io::Write>(
     );
     // Write the dictionary with the highest scoring segment last because
     // closer items can be represented with a smaller offset
-    while let Some(segment) = pool.pop() {
-        output
-            .write_all(&segment.0.raw)
-            .expect("can write to output");
+    // Keep the best scoring segments that fit into `dict_size` (the last one possibly cut short),
+    // and write them with the best segment last.
+    let mut remaining = dict_size;
+    let mut selected: Vec<Segment> = Vec::new();
+    for Reverse(mut segment) in pool.into_sorted_vec() {
+        if remaining == 0 {
+            break;
+        }
+        segment.raw.truncate(remaining);
+        remaining -= segment.raw.len();
+        selected.push(segment);
+    }
+    for segment in selected.iter().rev() {
+        output.write_all(&segment.raw).expect("can write to output");
     }
 }
 
